@@ -228,6 +228,12 @@ func (s *xsim) tx(name string) (*pb.Transaction, error) {
 		tx.TxInputs = append(tx.TxInputs, &protos.TxInput{RefTxid: ref.Txid, RefOffset: int32(r.off),
 			FromAddr: []byte(addrOf(o.To)), Amount: amtBytes(cited, false), FrozenHeight: o.Fz})
 		addSigner(o.To)
+		if c.Bad == "dupin" { // the same output listed twice
+			tx.TxInputs = append(tx.TxInputs, proto.Clone(tx.TxInputs[len(tx.TxInputs)-1]).(*protos.TxInput))
+		}
+	}
+	if c.Bad == "coinbase" { // submitted on its own it claims to be a coinbase
+		tx.Coinbase = true
 	}
 	for _, o := range c.Outs {
 		tx.TxOutputs = append(tx.TxOutputs, &protos.TxOutput{ToAddr: []byte(addrOf(o.To)), Amount: amtBytes(o.Amt, true), FrozenHeight: o.Fz})
@@ -332,11 +338,21 @@ func (s *xsim) build(p int, names []string) (*pb.InternalBlock, error) {
 		return nil, fmt.Errorf("unknown parent %d", p)
 	}
 	b := s.n + 1
-	list := []*pb.Transaction{s.award(b)}
+	aw := s.award(b)
+	list := []*pb.Transaction{aw}
 	for _, nm := range names {
 		t, err := s.tx(nm)
 		if err != nil {
 			return nil, err
+		}
+		if c := s.cat.Tx[nm]; c.Bad == "coinbase" {
+			// folded into the block's coinbase: its inputs and outputs ride on the award transaction (no signature)
+			aw.TxInputs = append(aw.TxInputs, t.TxInputs...)
+			aw.TxOutputs = append(aw.TxOutputs, t.TxOutputs...)
+			delete(s.names, hex.EncodeToString(aw.Txid))
+			aw.Txid, _ = txhash.MakeTransactionID(aw)
+			s.names[hex.EncodeToString(aw.Txid)] = "aw" + strconv.Itoa(b)
+			continue
 		}
 		list = append(list, proto.Clone(t).(*pb.Transaction))
 	}
